@@ -1,7 +1,33 @@
 import EdsModel
 import EdsSpec.C10
+import EdsProofs.PodBuild
 /-
   C10 — Created pods are pinned, labelled and stable under the controller's comparison.
+
+  Subject: `CreatePodFromDaemonSetReplicaSet` / `ReplaceNodeNameNodeAffinity` (EdsModel/PodBuild.lean)
+  and `compareCurrentPodWithNewPod` (EdsModel/PodUtil.lean); specification predicates EdsSpec/C10.lean;
+  helper lemmas EdsProofs/PodBuild.lean.
+
+  Quantification: every replica set (any template: labels, annotations, affinity terms, tolerations,
+  containers), every node (any name, override list, hash), every optional setting, both affinity modes.
+
+  Summary (all at full strength, no `_partial`):
+  * `C10_roundtrip` — needs four hypotheses (`hT` distinct template container names, `hS` distinct
+    setting container names, `hK` distinct resource keys, `hA` no stale `…/nodehash` template
+    annotation when the node hash is empty); each is shown necessary by a `decide`d counterexample
+    that satisfies the other three.  `hS` and `hA` are genuine findings about the controller (create
+    applies the LAST duplicate, compare reads the FIRST; a template annotation under the node-hash
+    key is copied but only overwritten when the node hash is non-empty), `hT` is excluded by
+    Kubernetes validation, `hK` is an artefact of association lists.
+  * `C10_pinned_affinity`, `C10_pinned_affinity_readback`, `C10_nodeOf_affinity`, `C10_pinned_unique`,
+    `C10_affinity_keeps_terms`, `C10_affinity_none`, `C10_pinned_spec_nodeName` — affinity mode needs
+    `affRequired ≠ some []` (counterexample given).
+  * `C10_meta`, `C10_meta_exact`, `createPod_label_setting`.
+  * `C10_resources` (distinct template names needed only with a setting; counterexample),
+    `C10_container_names` (unconditional).
+  * `C10_setting_compare_iff`, `C10_detects_setting_value`, `C10_override_exempts_setting`,
+    `C10_detects_template`, `C10_detects_annotation`.
+  * `C10_override_foreign_ignored` (frame), `C10_override_unknown_container`.
 -/
 namespace Eds
 open Spec.C10
@@ -32,5 +58,478 @@ theorem C10_detects_annotation (tg : String) (p : Pod) (ni : NodeItem)
   unfold comparePod
   rw [C10_node_hash_compare]
   simp [h]
+
+/-! ### Projections of the created pod -/
+
+theorem createPod_annotations (rs : ERS) (n : Node) (s : Option Setting) (aff : Bool) :
+    (createPod rs (some n) s aff).pod.annotations =
+      if n.resHash != "" then
+        SMap.set (SMap.set (SMap.set rs.template.annotations K.templateHashAnnot rs.templateGeneration)
+          K.autoscalerAnnot "true") K.nodeHashAnnot n.resHash
+      else SMap.set (SMap.set rs.template.annotations K.templateHashAnnot rs.templateGeneration)
+          K.autoscalerAnnot "true" := rfl
+
+theorem createPod_containers (rs : ERS) (n : Node) (s : Option Setting) (aff : Bool) :
+    (createPod rs (some n) s aff).pod.containers =
+      applyOverrides (match s with
+                      | some s => applySettingContainers rs.template.containers s.containers
+                      | none => rs.template.containers) n.overrides := rfl
+
+theorem createPod_affRequired_true (rs : ERS) (n : Node) (s : Option Setting) :
+    (createPod rs (some n) s true).pod.affRequired = some (pinAffinity rs.template.affRequired n.name) := rfl
+
+theorem createPod_template_hash (rs : ERS) (n : Node) (s : Option Setting) (aff : Bool) :
+    SMap.get? (createPod rs (some n) s aff).pod.annotations K.templateHashAnnot =
+      some rs.templateGeneration := by
+  rw [createPod_annotations]
+  split
+  · rw [SMap.get?_set_other _ _ _ _ K.hash_ne_nodeHash, SMap.get?_set_other _ _ _ _ K.hash_ne_autoscaler,
+      SMap.get?_set_self]
+  · rw [SMap.get?_set_other _ _ _ _ K.hash_ne_autoscaler, SMap.get?_set_self]
+
+/-- the stamped node hash: the node's hash when it has override annotations, otherwise whatever the
+template's own annotations say under that key (normally nothing). -/
+theorem createPod_node_hash (rs : ERS) (n : Node) (s : Option Setting) (aff : Bool) :
+    SMap.get? (createPod rs (some n) s aff).pod.annotations K.nodeHashAnnot =
+      if n.resHash = "" then SMap.get? rs.template.annotations K.nodeHashAnnot else some n.resHash := by
+  rw [createPod_annotations]
+  by_cases h : n.resHash = ""
+  · simp only [h, bne_self_eq_false, Bool.false_eq_true, if_false, if_true]
+    rw [SMap.get?_set_other _ _ _ _ K.nodeHash_ne_autoscaler, SMap.get?_set_other _ _ _ _ K.nodeHash_ne_hash]
+  · have hb : (n.resHash != "") = true := by simp [h]
+    simp only [hb, if_true, h, if_false]
+    rw [SMap.get?_set_self]
+
+/-! ### 1. Round trip -/
+
+/-- **Round trip: a pod just created is recognised as up to date for the same inputs**, so it is
+never replaced spuriously.  Holds for every replica set, node, setting and affinity mode under four
+well-formedness hypotheses, each of which is necessary (counterexamples below):
+
+* `hT` the template's container names are distinct (Kubernetes validation guarantees it);
+* `hS` the setting's container names are distinct — creation applies the LAST setting container of a
+  name (`overwriteResourcesFromEdsNode` loops over all of them) while the comparison reads the FIRST
+  (`compareWithExtendedDaemonsetSettingOverwrite` breaks at the first match); nothing in the
+  ExtendedDaemonsetSetting CRD or its validation forbids a repeated name;
+* `hK` the keys of every resource list of the setting are distinct (true of a Go map; a modelling
+  side condition on the association lists);
+* `hA` when the node has no override annotation (`resHash = ""`) the template's own annotations do
+  not carry a non-empty `…/nodehash` value — creation only overwrites that key when the node hash is
+  non-empty, the comparison reads whatever is there.
+
+`hT`, `hS`, `hK` are only used when a setting is given. -/
+theorem C10_roundtrip (rs : ERS) (n : Node) (setting : Option Setting) (aff : Bool)
+    (hT : ∀ s, setting = some s → (rs.template.containers.map (·.name)).Nodup)
+    (hS : ∀ s, setting = some s → (s.containers.map (·.name)).Nodup)
+    (hK : ∀ s, setting = some s → ∀ x ∈ s.containers,
+            (x.res.limits.map (·.k)).Nodup ∧ (x.res.requests.map (·.k)).Nodup)
+    (hA : n.resHash = "" → (SMap.get? rs.template.annotations K.nodeHashAnnot).getD "" = "") :
+    comparePod rs.templateGeneration (createPod rs (some n) setting aff).pod
+      { node := n, setting := setting } = true := by
+  unfold comparePod
+  rw [Bool.and_eq_true, Bool.and_eq_true]
+  refine ⟨⟨?_, ?_⟩, ?_⟩
+  · unfold compareSpecTemplateHash
+    rw [createPod_template_hash]; simp
+  · unfold compareSettingOverwrite
+    cases setting with
+    | none => rfl
+    | some s =>
+      simp only [createPod_containers]
+      exact settingCheck_created _ s n.overrides (hT s rfl) (hS s rfl) (hK s rfl)
+  · rw [C10_node_hash_compare, createPod_node_hash]
+    by_cases h : n.resHash = ""
+    · simp only [h, if_true, hA h]; rfl
+    · simp [h]
+
+/-! Concrete inputs for the counterexamples. -/
+namespace C10ex
+
+def mkC (nm : String) (lim : SMap) : Container := { name := nm, res := { limits := lim, requests := [] } }
+
+def mkRS (ann : SMap) (aff : Option (List Term)) (cs : List Container) : ERS :=
+  { name := "rs", ns := "ns", uid := "u", labels := [{ k := K.edsNameLabel, v := "eds" }], annotations := [],
+    creation := 0, deleted := false, ownerEds := some "eds", selector := none, templateGeneration := "h1",
+    template := { labels := [{ k := "app", v := "agent" }], annotations := ann, nodeSelector := [], affOther := "",
+                  affRequired := aff, tolerations := [], containers := cs },
+    status := { status := "", desired := 0, current := 0, ready := 0, available := 0, ignored := 0, conds := [] } }
+
+def mkNode (hash : String) (ovs : List Override) : Node :=
+  { name := "node-a", labels := [], annotations := [], taints := [], resHash := hash, overrides := ovs }
+
+def mkSetting (cs : List Container) : Setting :=
+  { name := "st", ns := "ns", creation := 0, reference := some "eds",
+    nodeSelector := { matchLabels := [], exprs := [] }, containers := cs, status := "active", error := "" }
+
+end C10ex
+open C10ex
+
+/-- the three list-shape hypotheses of `C10_roundtrip`, as a decidable check on concrete inputs
+(used to show that each counterexample violates exactly one hypothesis). -/
+def C10ex.shapeOk (rs : ERS) (s : Setting) : Bool × Bool × Bool :=
+  (decide (rs.template.containers.map (·.name)).Nodup,
+   decide (s.containers.map (·.name)).Nodup,
+   s.containers.all (fun x => decide (x.res.limits.map (·.k)).Nodup && decide (x.res.requests.map (·.k)).Nodup))
+
+/-- `hS` is needed: a setting naming container `agent` twice with different limits.  Creation leaves
+the second value (cpu = 200) on the pod, the comparison re-applies the first (cpu = 100) and declares
+the fresh pod outdated — it would be deleted and recreated on every reconcile.  (`hT`, `hK`, `hA`
+hold.) -/
+example :
+    let rs := mkRS [] none [mkC "agent" []]
+    let st := mkSetting [mkC "agent" [⟨"cpu", "100"⟩], mkC "agent" [⟨"cpu", "200"⟩]]
+    comparePod "h1" (createPod rs (some (mkNode "" [])) (some st) false).pod
+      { node := mkNode "" [], setting := some st } = false ∧
+    shapeOk rs st = (true, false, true) ∧
+    SMap.get? rs.template.annotations K.nodeHashAnnot = none := by
+  decide
+
+/-- `hT` is needed: two template containers called `agent`; only the first receives the setting's
+resources, the comparison expects them on both.  (`hS`, `hK`, `hA` hold.) -/
+example :
+    let rs := mkRS [] none [mkC "agent" [], mkC "agent" []]
+    let st := mkSetting [mkC "agent" [⟨"cpu", "100"⟩]]
+    comparePod "h1" (createPod rs (some (mkNode "" [])) (some st) false).pod
+      { node := mkNode "" [], setting := some st } = false ∧
+    shapeOk rs st = (false, true, true) ∧
+    SMap.get? rs.template.annotations K.nodeHashAnnot = none := by
+  decide
+
+/-- `hK` is needed (association-list artefact, impossible for a Go map): a resource list holding
+the key `cpu` twice.  (`hT`, `hS`, `hA` hold.) -/
+example :
+    let rs := mkRS [] none [mkC "agent" []]
+    let st := mkSetting [mkC "agent" [⟨"cpu", "100"⟩, ⟨"cpu", "200"⟩]]
+    comparePod "h1" (createPod rs (some (mkNode "" [])) (some st) false).pod
+      { node := mkNode "" [], setting := some st } = false ∧
+    shapeOk rs st = (true, true, false) ∧
+    SMap.get? rs.template.annotations K.nodeHashAnnot = none := by
+  decide
+
+/-- `hA` is needed: the template itself carries a `…/nodehash` annotation and the node has no
+override annotation; the stale value is copied onto the pod and never matches the node's (empty)
+hash, with or without a setting (`hT`, `hS`, `hK` are vacuous here).  With a non-empty node hash the
+stale value is overwritten and the round trip holds again. -/
+example :
+    let rs := mkRS [⟨K.nodeHashAnnot, "stale"⟩] none [mkC "agent" []]
+    comparePod "h1" (createPod rs (some (mkNode "" [])) none false).pod
+      { node := mkNode "" [], setting := none } = false ∧
+    comparePod "h1" (createPod rs (some (mkNode "x" [])) none false).pod
+      { node := mkNode "x" [], setting := none } = true := by
+  decide
+
+/-! ### 2. Node binding -/
+
+/-- **Pinned by node name** (node-name mode), in the specification's terms. -/
+theorem C10_pinned_spec_nodeName (rs : ERS) (n : Node) (s : Option Setting) :
+    pinned (createPod rs (some n) s false).pod n.name false = true := by
+  simp [pinned, createPod]
+
+/-- node-name mode leaves the template's affinity alone. -/
+theorem C10_nodeName_keeps_affinity (rs : ERS) (n : Node) (s : Option Setting) :
+    (createPod rs (some n) s false).pod.affRequired = rs.template.affRequired ∧
+    (createPod rs (some n) s false).pod.affOther = rs.template.affOther := ⟨rfl, rfl⟩
+
+/-- **Pinned by affinity** (affinity mode): no node name, at least one required term, every term
+carries the node-name requirement and no other `metadata.name` match field.  The hypothesis excludes
+the degenerate template whose required node affinity has an empty term list (see below). -/
+theorem C10_pinned_affinity (rs : ERS) (n : Node) (s : Option Setting)
+    (h : rs.template.affRequired ≠ some []) :
+    pinned (createPod rs (some n) s true).pod n.name true = true := by
+  unfold pinned
+  simp only [if_true, createPod_affRequired_true, Bool.and_eq_true]
+  refine ⟨by simp [createPod], ?_, pinAffinity_all_pinned _ _⟩
+  have := pinAffinity_ne_nil rs.template.affRequired n.name h
+  cases hp : pinAffinity rs.template.affRequired n.name with
+  | nil => exact absurd hp this
+  | cons _ _ => rfl
+
+/-- with `requiredDuringScheduling… = {nodeSelectorTerms: []}` there is no term to rewrite: the
+created pod carries neither a node name nor a node-name requirement (such a pod matches no node, so
+nothing is scheduled, but the controller believes it created the pod for `node-a`). -/
+example : pinned (createPod (mkRS [] (some []) [mkC "agent" []]) (some (mkNode "" [])) none true).pod "node-a" true
+    = false := by decide
+
+/-- **Read-back**: the controller's own `GetNodeNameFromAffinity` recovers the node the pod was
+created for. -/
+theorem C10_pinned_affinity_readback (rs : ERS) (n : Node) (s : Option Setting)
+    (h : rs.template.affRequired ≠ some []) :
+    nodeNameFromAffinity (createPod rs (some n) s true).pod.affRequired = n.name :=
+  nodeNameFromAffinity_of_pinned (C10_pinned_affinity rs n s h)
+
+/-- … hence `GetNodeNameFromPod` returns that node (for a node with a non-empty name). -/
+theorem C10_nodeOf_affinity (rs : ERS) (n : Node) (s : Option Setting)
+    (h : rs.template.affRequired ≠ some []) (hn : n.name ≠ "") :
+    (createPod rs (some n) s true).pod.nodeOf = some n.name := by
+  have hr := C10_pinned_affinity_readback rs n s h
+  unfold Pod.nodeOf
+  have h0 : (createPod rs (some n) s true).pod.nodeName = "" := rfl
+  simp [h0, hr, hn]
+
+theorem C10_nodeOf_nodeName (rs : ERS) (n : Node) (s : Option Setting) (hn : n.name ≠ "") :
+    (createPod rs (some n) s false).pod.nodeOf = some n.name := by
+  unfold Pod.nodeOf
+  rw [C10_pinned_nodeName]
+  simp [hn]
+
+/-- **Exactly one node**: a pod cannot be pinned (in affinity mode) to two different nodes. -/
+theorem C10_pinned_unique (p : Pod) (a b : String)
+    (ha : pinned p a true = true) (hb : pinned p b true = true) : a = b := by
+  rw [← nodeNameFromAffinity_of_pinned ha, ← nodeNameFromAffinity_of_pinned hb]
+
+/-- **The rest of the affinity is kept**: same number of terms, in the same order, each with its
+match expressions and its match fields other than `metadata.name` unchanged; everything outside the
+required node affinity (`affOther`) is untouched. -/
+theorem C10_affinity_keeps_terms (rs : ERS) (n : Node) (s : Option Setting) (terms : List Term)
+    (h : rs.template.affRequired = some terms) :
+    ∃ terms', (createPod rs (some n) s true).pod.affRequired = some terms' ∧
+      terms'.map (·.exprs) = terms.map (·.exprs) ∧
+      terms'.map (fun t => t.fields.filter (fun f => f.key != "metadata.name")) =
+        terms.map (fun t => t.fields.filter (fun f => f.key != "metadata.name")) ∧
+      (createPod rs (some n) s true).pod.affOther = rs.template.affOther := by
+  refine ⟨terms.map (pinTerm n.name), ?_, ?_, ?_, rfl⟩
+  · rw [createPod_affRequired_true, h]; rfl
+  · rw [List.map_map]; exact List.map_congr_left (fun t _ => pinTerm_exprs n.name t)
+  · rw [List.map_map]; exact List.map_congr_left (fun t _ => pinTerm_other_fields n.name t)
+
+/-- without a required node affinity in the template the pod gets a single term holding only the
+node-name requirement. -/
+theorem C10_affinity_none (rs : ERS) (n : Node) (s : Option Setting)
+    (h : rs.template.affRequired = none) :
+    (createPod rs (some n) s true).pod.affRequired = some [{ exprs := [], fields := [nameReq n.name] }] := by
+  rw [createPod_affRequired_true, h]; rfl
+
+/-! ### 3. Metadata -/
+
+theorem createPod_label_ers (rs : ERS) (n : Option Node) (s : Option Setting) (aff : Bool) :
+    SMap.get? (createPod rs n s aff).pod.labels K.ersNameLabel = some rs.name := by
+  cases s with
+  | none =>
+    show SMap.get? (SMap.set (SMap.set _ _ _) _ _) _ = _
+    rw [SMap.get?_set_other _ _ _ _ K.ers_ne_eds, SMap.get?_set_self]
+  | some s =>
+    show SMap.get? (SMap.set (SMap.set (SMap.set (SMap.set _ _ _) _ _) _ _) _ _) _ = _
+    rw [SMap.get?_set_other _ _ _ _ K.ers_ne_settingNs, SMap.get?_set_other _ _ _ _ K.ers_ne_settingName,
+      SMap.get?_set_other _ _ _ _ K.ers_ne_eds, SMap.get?_set_self]
+
+theorem createPod_label_eds (rs : ERS) (n : Option Node) (s : Option Setting) (aff : Bool) :
+    SMap.get? (createPod rs n s aff).pod.labels K.edsNameLabel = some (SMap.getD rs.labels K.edsNameLabel) := by
+  cases s with
+  | none =>
+    show SMap.get? (SMap.set (SMap.set _ _ _) _ _) _ = _
+    rw [SMap.get?_set_self]
+  | some s =>
+    show SMap.get? (SMap.set (SMap.set (SMap.set (SMap.set _ _ _) _ _) _ _) _ _) _ = _
+    rw [SMap.get?_set_other _ _ _ _ K.eds_ne_settingNs, SMap.get?_set_other _ _ _ _ K.eds_ne_settingName,
+      SMap.get?_set_self]
+
+/-- when a setting is applied the pod also names it (label pair read by the setting controller). -/
+theorem createPod_label_setting (rs : ERS) (n : Option Node) (s : Setting) (aff : Bool) :
+    SMap.get? (createPod rs n (some s) aff).pod.labels K.settingNameLabel = some s.name ∧
+    SMap.get? (createPod rs n (some s) aff).pod.labels K.settingNsLabel = some s.ns := by
+  constructor
+  · show SMap.get? (SMap.set (SMap.set _ _ _) _ _) _ = _
+    rw [SMap.get?_set_other _ _ _ _ (by decide), SMap.get?_set_self]
+  · show SMap.get? (SMap.set (SMap.set _ _ _) _ _) _ = _
+    rw [SMap.get?_set_self]
+
+/-- **Metadata**: owned by the replica set, both name labels, that replica set's template hash,
+the default DaemonSet tolerations, the replica set's namespace. -/
+theorem C10_meta (rs : ERS) (n : Node) (s : Option Setting) (aff : Bool) :
+    metaOk (createPod rs (some n) s aff).pod rs = true := by
+  unfold metaOk
+  rw [createPod_label_ers, createPod_label_eds, createPod_template_hash]
+  simp only [beq_self_eq_true, Bool.and_true, Bool.and_eq_true]
+  refine ⟨⟨?_, ?_⟩, ?_⟩
+  · simp [createPod]
+  · rw [List.all_eq_true]
+    intro t ht
+    rw [List.contains_iff_mem]
+    exact List.mem_append_right _ ht
+  · simp [createPod]
+
+/-- the pod's tolerations are exactly the template's followed by the default ones (so the
+template's are a prefix), and the only owner is the replica set. -/
+theorem C10_meta_exact (rs : ERS) (n : Node) (s : Option Setting) (aff : Bool) :
+    (createPod rs (some n) s aff).pod.tolerations = rs.template.tolerations ++ standardTolerations ∧
+    rs.template.tolerations <+: (createPod rs (some n) s aff).pod.tolerations ∧
+    (createPod rs (some n) s aff).pod.owners = [{ kind := "ExtendedDaemonSetReplicaSet", name := rs.name }] ∧
+    (createPod rs (some n) s aff).pod.name = rs.name ++ "-" :=
+  ⟨rfl, List.prefix_append _ _, rfl, rfl⟩
+
+/-! ### 4. Resources -/
+
+/-- **Resources**: container names are the template's, and each container's resources are the
+well-formed node-annotation override, else those of the (last) setting container of that name, else
+the template's; a malformed annotation falls through.  Needs distinct template container names only
+when a setting is given. -/
+theorem C10_resources (rs : ERS) (n : Node) (s : Option Setting) (aff : Bool)
+    (hT : s.isSome → (rs.template.containers.map (·.name)).Nodup) :
+    resources (createPod rs (some n) s aff).pod rs.template n s = true := by
+  have hcs : (createPod rs (some n) s aff).pod.containers =
+      rs.template.containers.map (fun c => resolveOverride n.overrides
+        (match s with
+         | some s => resolveSetting s.containers c
+         | none => c)) := by
+    rw [createPod_containers, applyOverrides_eq_map]
+    cases s with
+    | none => simp
+    | some s => simp only [applySettingContainers_eq_map _ _ (hT rfl), List.map_map]; rfl
+  unfold resources
+  rw [hcs, Bool.and_eq_true]
+  constructor
+  · rw [List.map_map, beq_iff_eq]
+    exact List.map_congr_left (fun c _ => by
+      simp only [Function.comp, resolveOverride_name]
+      cases s <;> simp [resolveSetting_name])
+  · rw [all_zip_map_self, List.all_eq_true]
+    intro c _
+    exact beq_iff_eq.2 (resolved_res_eq_expected c n s)
+
+/-- names never change, whatever the inputs. -/
+theorem C10_container_names (rs : ERS) (n : Node) (s : Option Setting) (aff : Bool) :
+    (createPod rs (some n) s aff).pod.containers.map (·.name) = rs.template.containers.map (·.name) := by
+  rw [createPod_containers, applyOverrides_eq_map, List.map_map]
+  have : ((fun c : Container => c.name) ∘ resolveOverride n.overrides) = (fun c => c.name) := by
+    funext c; exact resolveOverride_name _ _
+  rw [this]
+  cases s with
+  | none => rfl
+  | some s => exact applySettingContainers_names _ _
+
+/-- `hT` is needed for `C10_resources`: with two template containers of the same name only the first
+receives the setting's resources. -/
+example :
+    resources (createPod (mkRS [] none [mkC "agent" [], mkC "agent" []]) (some (mkNode "" []))
+        (some (mkSetting [mkC "agent" [⟨"cpu", "100"⟩]])) false).pod
+      (mkRS [] none [mkC "agent" [], mkC "agent" []]).template (mkNode "" [])
+      (some (mkSetting [mkC "agent" [⟨"cpu", "100"⟩]])) = false := by decide
+
+/-! ### 5. Detection of a setting value that differs -/
+
+/-- the setting part of the comparison, spelled out. -/
+theorem C10_setting_compare_iff (p : Pod) (n : Node) (s : Setting) :
+    compareSettingOverwrite p { node := n, setting := some s } = true ↔
+      ∀ c ∈ p.containers,
+        (∃ o ∈ n.overrides, o.container = c.name ∧ o.ok = true) ∨
+        ∀ x, s.containers.find? (fun c2 => c2.name == c.name) = some x →
+          (∀ e ∈ x.res.limits, SMap.get? c.res.limits e.k = some e.v) ∧
+          (∀ e ∈ x.res.requests, SMap.get? c.res.requests e.k = some e.v) := by
+  unfold compareSettingOverwrite
+  simp only [List.all_eq_true]
+  constructor
+  · intro h c hc
+    have hc' := h c hc
+    by_cases hany : (n.overrides.any fun o => o.container == c.name && o.ok) = true
+    · left
+      obtain ⟨o, ho, hp⟩ := List.any_eq_true.1 hany
+      exact ⟨o, ho, by simpa using hp⟩
+    · right
+      intro x hx
+      have hany' := Bool.eq_false_iff.2 hany
+      simp only [hany', hx, overlayIsNoop, Bool.false_eq_true, if_false, Bool.and_eq_true,
+        List.all_eq_true, beq_iff_eq] at hc'
+      exact hc'
+  · intro h c hc
+    rcases h c hc with ⟨o, ho, hoc, hok⟩ | hr
+    · have : (n.overrides.any fun o => o.container == c.name && o.ok) = true :=
+        List.any_eq_true.2 ⟨o, ho, by simp [hoc, hok]⟩
+      simp only [this, if_true]
+    · split
+      · rfl
+      · cases hf : s.containers.find? (fun c2 => c2.name == c.name) with
+        | none => rfl
+        | some x =>
+          simp only [overlayIsNoop, Bool.and_eq_true, List.all_eq_true, beq_iff_eq]
+          exact hr x hf
+
+/-- **A differing setting value is detected**: if the node's setting demands (in its first container
+named like pod container `c`) a limit or request that `c` does not carry with that value, and `c` is
+not governed by a well-formed override annotation, the pod is outdated. -/
+theorem C10_detects_setting_value (tg : String) (p : Pod) (n : Node) (s2 : Setting)
+    (c x : Container) (e : KV) (hc : c ∈ p.containers)
+    (hov : ¬ ∃ o ∈ n.overrides, o.container = c.name ∧ o.ok = true)
+    (hx : s2.containers.find? (fun c2 => c2.name == c.name) = some x)
+    (he : (e ∈ x.res.limits ∧ SMap.get? c.res.limits e.k ≠ some e.v) ∨
+          (e ∈ x.res.requests ∧ SMap.get? c.res.requests e.k ≠ some e.v)) :
+    comparePod tg p { node := n, setting := some s2 } = false := by
+  have : compareSettingOverwrite p { node := n, setting := some s2 } ≠ true := by
+    intro h
+    rw [C10_setting_compare_iff] at h
+    rcases h c hc with ho | hr
+    · exact hov ho
+    · obtain ⟨hl, hq⟩ := hr x hx
+      rcases he with ⟨hm, hne⟩ | ⟨hm, hne⟩
+      · exact hne (hl e hm)
+      · exact hne (hq e hm)
+  unfold comparePod
+  simp [this]
+
+/-- conversely a container governed by a well-formed override is exempt (F4 repair): the setting's
+values are not expected on it. -/
+theorem C10_override_exempts_setting (p : Pod) (n : Node) (s : Setting)
+    (h : ∀ c ∈ p.containers, ∃ o ∈ n.overrides, o.container = c.name ∧ o.ok = true) :
+    compareSettingOverwrite p { node := n, setting := some s } = true := by
+  rw [C10_setting_compare_iff]
+  exact fun c hc => Or.inl (h c hc)
+
+/-! ### 6. What creation reads of the node -/
+
+/-- **Frame**: of the node, creation reads only the name, the override hash and the (already
+EDS-restricted) override list — labels, taints and every other annotation (overrides addressed to
+another ExtendedDaemonSet included) are ignored. -/
+theorem C10_override_foreign_ignored (rs : ERS) (n n' : Node) (s : Option Setting) (aff : Bool)
+    (h1 : n'.name = n.name) (h2 : n'.resHash = n.resHash) (h3 : n'.overrides = n.overrides) :
+    createPod rs (some n') s aff = createPod rs (some n) s aff := by
+  simp only [createPod, h1, h2, h3]
+
+/-- an override for a container name the template does not have changes nothing. -/
+theorem C10_override_unknown_container (cs : List Container) (ovs : List Override) (o : Override)
+    (h : ∀ c ∈ cs, c.name ≠ o.container) :
+    applyOverrides cs (ovs ++ [o]) = applyOverrides cs ovs := by
+  unfold applyOverrides
+  apply List.map_congr_left
+  intro c hc
+  have : (o.container == c.name) = false := by simpa using Ne.symm (h c hc)
+  rw [List.find?_append]
+  cases ovs.find? (fun o => o.container == c.name) with
+  | some _ => rfl
+  | none => simp [this]
+
+/-! ### Worked example -/
+
+namespace C10ex
+/-- template: `agent` (cpu 100) and `trace` (cpu 50); node `node-a` carries a well-formed override for
+`agent` (cpu 900) and a malformed one for `trace`; the setting gives `agent` cpu 300 and `trace`
+cpu 70 / memory 64. -/
+def exRS : ERS := mkRS [⟨"team", "obs"⟩] none [mkC "agent" [⟨"cpu", "100"⟩], mkC "trace" [⟨"cpu", "50"⟩]]
+def exNode : Node :=
+  mkNode "hash-1" [{ container := "agent", ok := true, res := { limits := [⟨"cpu", "900"⟩], requests := [] } },
+                   { container := "trace", ok := false, res := { limits := [], requests := [] } }]
+def exSetting : Setting := mkSetting [mkC "agent" [⟨"cpu", "300"⟩], mkC "trace" [⟨"cpu", "70"⟩, ⟨"memory", "64"⟩]]
+/-- same setting with another cpu value for `trace` -/
+def exSettingTrace80 : Setting := mkSetting [mkC "agent" [⟨"cpu", "300"⟩], mkC "trace" [⟨"cpu", "80"⟩]]
+/-- same setting with another cpu value for `agent` only -/
+def exSettingAgent301 : Setting := mkSetting [mkC "agent" [⟨"cpu", "301"⟩], mkC "trace" [⟨"cpu", "70"⟩]]
+def exNodeHash2 : Node := { exNode with resHash := "hash-2" }
+end C10ex
+
+/-- resolved resources: override for `agent`, setting for `trace` (malformed override skipped). -/
+example : (createPod exRS (some exNode) (some exSetting) true).pod.containers =
+    [mkC "agent" [⟨"cpu", "900"⟩], mkC "trace" [⟨"cpu", "70"⟩, ⟨"memory", "64"⟩]] := by decide
+
+/-- round trip, specification predicates and read-back on the concrete pod; changing the setting's
+`trace` cpu value, the node hash or the template hash makes it outdated. -/
+example :
+    let p := (createPod exRS (some exNode) (some exSetting) true).pod
+    comparePod "h1" p { node := exNode, setting := some exSetting } = true ∧
+    resources p exRS.template exNode (some exSetting) = true ∧
+    metaOk p exRS = true ∧ pinned p "node-a" true = true ∧ p.nodeOf = some "node-a" ∧
+    comparePod "h1" p { node := exNode, setting := some exSettingTrace80 } = false ∧
+    comparePod "h1" p { node := exNodeHash2, setting := some exSetting } = false ∧
+    comparePod "h2" p { node := exNode, setting := some exSetting } = false ∧
+    -- the setting's `agent` value is not expected on the pod: the override governs that container
+    comparePod "h1" p { node := exNode, setting := some exSettingAgent301 } = true := by
+  decide
 
 end Eds
